@@ -48,6 +48,16 @@ def gen_cases(tier, seed):
                         cases.append({"kind": "spline", "family": fam, "box": None, "B": mag, "bins": K,
                                       "pscale": ps, "world": world,
                                       "seed": env.subseed(seed, "c17t", fam, mag, ps, world, rep), "cost": 1})
+            if world == "f32":
+                # double-precision inputs while the DEFAULT dtype is single precision (a float64 model in an ordinary process), bounds
+                # that are not single-precision numbers: a bound that is turned into a default-dtype tensor before it is compared
+                # moves by 1e-8, and an input sitting exactly on the (python float) bound is misjudged
+                for fam in ("linear", "quadratic", "cubic", "rq"):
+                    for mi, mag in enumerate((0.1, 0.3, 0.7, 1.1, 2.2)):
+                        K = [1, 2, 5, 10][(mi + rep) % 4]
+                        for bx in ([0.0, mag, 0.0, mag], [-mag, 0.9, -0.7, mag], None):
+                            cases.append({"kind": "spline", "family": fam, "box": bx, "B": mag, "bins": K, "pscale": 1.0, "world": world,
+                                          "in64": True, "seed": env.subseed(seed, "c17in64", fam, mag, rep, bx), "cost": 1})
             # "tail bounds and boxes of any magnitude": bounds whose SQUARE leaves the floating range (1.9e19 in float32, 1.4e154
             # in float64) - anything computed from squared box coordinates overflows although inputs and outputs are ordinary numbers
             for fam in ("linear", "quadratic", "cubic", "rq"):
@@ -167,7 +177,7 @@ def place(xint, v, g, features=None):
 
 def run_case(case):
     r = R(case)
-    dtype = torch.get_default_dtype()
+    dtype = torch.float64 if case.get("in64") else torch.get_default_dtype()
     g = torch.Generator().manual_seed(case["seed"])
     kind = case["kind"]
     if kind == "simple":
